@@ -61,6 +61,35 @@ def _eval_variant(args):
     return name, ("fired" if new else "silent"), "", sorted({x.rule for x in new})
 
 
+def _benign_dir() -> str:
+    return os.path.join(os.path.dirname(os.path.dirname(os.path.dirname(os.path.abspath(__file__)))), "seeded", "benign")
+
+
+def _eval_benign(args):
+    prop, fname = args
+    from ..cli import build_run
+    from .udiff import apply_diff
+
+    base = SourceSet.load()
+    try:
+        with open(os.path.join(_benign_dir(), fname), encoding="utf-8") as f:
+            v = apply_diff(base, f.read())
+    except OSError:
+        v = None
+    if v is None:
+        return fname, "skipped", "patch does not apply to the current tree", []
+    try:
+        run = build_run(prop, "quick", v)
+        new, _m, short = run.classify()
+    except AnalysisError as e:
+        return fname, "analysis-error", str(e), []
+    except Exception as e:  # pragma: no cover
+        return fname, "crash", "".join(traceback.format_exception_only(type(e), e)).strip(), []
+    if short:
+        return fname, "analysis-error", "; ".join(short), []
+    return fname, ("fired" if new else "silent"), "", sorted({x.rule for x in new})
+
+
 def run(prop: str) -> int:
     from ..cli import build_run, load_prop
 
@@ -92,6 +121,15 @@ def run(prop: str) -> int:
             vresults = list(ex.map(_eval_variant, vjobs))
     except Exception:
         vresults = [_eval_variant(j) for j in vjobs]
+    bfiles = sorted(f for f in os.listdir(_benign_dir()) if f.endswith(".diff")) if os.path.isdir(_benign_dir()) else []
+    bjobs = [(prop, f) for f in bfiles]
+    bresults = []
+    if bjobs:
+        try:
+            with ProcessPoolExecutor(max_workers=min(len(bjobs), os.cpu_count() or 4, 16)) as ex:
+                bresults = list(ex.map(_eval_benign, bjobs))
+        except Exception:
+            bresults = [_eval_benign(j) for j in bjobs]
     by_id = {m.id: m for m in mutants}
     killed = survived = twins_ok = twins_flagged = skipped = 0
     problems: list[str] = []
@@ -127,12 +165,25 @@ def run(prop: str) -> int:
         else:
             twins_flagged += 1
             problems.append(f"whole-package behaviour-preserving variant `{name}` was flagged ({status} {rules} {info})")
+    benign_ok = benign_skipped = 0
+    for fname, status, info, rules in bresults:
+        table.append({"id": f"benign:{fname}", "expect": "silent", "status": status, "rules": rules, "info": info})
+        if status == "silent":
+            twins_ok += 1
+            benign_ok += 1
+        elif status == "skipped":
+            skipped += 1
+            benign_skipped += 1
+        else:
+            twins_flagged += 1
+            problems.append(f"agent-written behaviour-preserving refactoring {fname} was flagged ({status} {rules} {info})")
     main.extra["sensitivity_audit"] = {
         "mutants": len([m for m in mutants if m.expect == "fire"]),
         "killed": killed,
         "survived": survived,
-        "twins": len([m for m in mutants if m.expect == "silent"]) + len(vresults),
+        "twins": len([m for m in mutants if m.expect == "silent"]) + len(vresults) + len(bresults),
         "whole_package_variants": [name for name, *_ in vresults],
+        "benign_refactorings": {"files": len(bresults), "silent": benign_ok, "skipped": benign_skipped},
         "twins_silent": twins_ok,
         "twins_flagged": twins_flagged,
         "skipped": skipped,
